@@ -63,6 +63,7 @@ func checkC16(r *core.Run) {
 	c16Flags(r, p)
 	blockdbFlushDrains(r, p, "R-C16-flags")
 	c16Retention(r, p)
+	c16ResumePosition(r, p, "R-C16-position")
 }
 
 func c16Layouts(r *core.Run, p *core.Program, wo, lb *ssa.Function) {
@@ -798,4 +799,137 @@ func c16Retention(r *core.Run, p *core.Program) {
 	}
 	sort.Strings(probs)
 	r.Check(len(probs) == 0, rule, "retention-boundary", p.Pos(lb.Pos()), "roll-over drops max-keep before incrementing max; start-up drops max-keep-1 and below", strings.Join(probs, "; "))
+}
+
+// c16Sources resolves v to the byte ranges of the 136-byte record it is computed from: through conversions,
+// arithmetic, phis, and loads of fields that are stored exactly once in fn.  Anything else is rendered
+// with an.Expr.
+func c16Sources(fn *ssa.Function, v ssa.Value, out map[string]bool, seen map[ssa.Value]bool) {
+	if seen[v] {
+		return
+	}
+	seen[v] = true
+	switch x := v.(type) {
+	case *ssa.Const:
+		return
+	case *ssa.Convert:
+		c16Sources(fn, x.X, out, seen)
+	case *ssa.ChangeType:
+		c16Sources(fn, x.X, out, seen)
+	case *ssa.BinOp:
+		c16Sources(fn, x.X, out, seen)
+		c16Sources(fn, x.Y, out, seen)
+	case *ssa.Phi:
+		for _, e := range x.Edges {
+			c16Sources(fn, e, out, seen)
+		}
+	case *ssa.Call:
+		n := an.CallName(x)
+		if strings.HasPrefix(n, "(encoding/binary.littleEndian).Uint") && len(x.Call.Args) == 2 {
+			if rng, _, ok := c16ConstSlice(x.Call.Args[1]); ok {
+				out["["+rng+"]"] = true
+				return
+			}
+		}
+		out[an.Expr(v)] = true
+	case *ssa.UnOp:
+		if fa, ok := x.X.(*ssa.FieldAddr); ok && x.Op == token.MUL {
+			var vals []ssa.Value
+			an.Instrs(fn, func(i ssa.Instruction) {
+				if st, ok := i.(*ssa.Store); ok {
+					if fb, ok := st.Addr.(*ssa.FieldAddr); ok && fb.X == fa.X && fb.Field == fa.Field {
+						vals = append(vals, st.Val)
+					}
+				}
+			})
+			if len(vals) == 1 {
+				c16Sources(fn, vals[0], out, seen)
+				return
+			}
+		}
+		out[an.Expr(v)] = true
+	default:
+		out[an.Expr(v)] = true
+	}
+}
+
+// c16ResumePosition: after a restart appending continues behind the last stored block.  The writer puts the
+// number of bytes it appends to the data file into record bytes [48:52] (and the position into [40:48]) and
+// advances its append position by the same number; the loader therefore has to compute the append position
+// from exactly those two fields - not from the original (uncompressed) length in [32:36], which differs
+// from the bytes on disk for every compressed block.
+func c16ResumePosition(r *core.Run, p *core.Program, rule string) {
+	wo := p.Func("lib/chain.(*BlockDB).writeOne")
+	lb := p.Func("lib/chain.(*BlockDB).LoadBlockIndex")
+	if wo == nil || lb == nil {
+		r.Fail(rule, "resume-position", "-", "writeOne / LoadBlockIndex not found")
+		return
+	}
+	posStore := func(i ssa.Instruction) (*ssa.Store, bool) {
+		st, ok := i.(*ssa.Store)
+		if !ok {
+			return nil, false
+		}
+		fa, ok := st.Addr.(*ssa.FieldAddr)
+		if !ok {
+			return nil, false
+		}
+		f, _ := an.FieldOf(fa)
+		return st, f == "lib/chain.BlockDB.maxdatfilepos"
+	}
+	// writer side: the value put at [48:52] is the length of the bytes written to the data file, and the
+	// position advances by it
+	var stored ssa.Value
+	for _, c := range an.CallsTo(wo, false, "(encoding/binary.littleEndian).PutUint32") {
+		a := c.Common().Args
+		if rng, _, ok := c16ConstSlice(a[1]); ok && rng == "48:52" {
+			stored = a[2]
+		}
+	}
+	var written ssa.Value
+	for _, c := range an.CallsTo(wo, false, "(*os.File).Write") {
+		a := c.Common().Args
+		if strings.HasSuffix(an.Expr(a[0]), ".blockdata") {
+			written = a[1]
+		}
+	}
+	okW := false
+	detail := "writeOne: record bytes [48:52] or the data-file write not found"
+	if stored != nil && written != nil {
+		wantLen := "uint32(builtin.len(" + an.Expr(written) + "))"
+		adv := false
+		an.Instrs(wo, func(i ssa.Instruction) {
+			if st, ok := posStore(i); ok {
+				if bo, isB := st.Val.(*ssa.BinOp); isB && bo.Op == token.ADD && an.Expr(c17StripConv(bo.Y)) == an.Expr(c17StripConv(stored)) {
+					adv = true
+				}
+			}
+		})
+		okW = an.Expr(stored) == wantLen && adv
+		detail = fmt.Sprintf("writeOne stores %s in record bytes [48:52], writes %s to the data file and advances the append position by the stored value: %v", an.Expr(stored), an.Expr(written), adv)
+	}
+	r.Check(okW, rule, "resume-position/writer", p.Pos(wo.Pos()), "record bytes [48:52] hold the number of bytes appended to the data file; the append position advances by it", detail)
+	// loader side
+	n := 0
+	var bad []string
+	an.Instrs(lb, func(i ssa.Instruction) {
+		st, ok := posStore(i)
+		if !ok {
+			return
+		}
+		if k, isC := an.ConstOf(st.Val); isC && k.Sign() == 0 {
+			return
+		}
+		n++
+		src := map[string]bool{}
+		c16Sources(lb, st.Val, src, map[ssa.Value]bool{})
+		got := an.TagList(src)
+		if got != an.TagList(map[string]bool{"[40:48]": true, "[48:52]": true}) {
+			bad = append(bad, "the append position set at "+p.Pos(an.InstrPos(i))+" is computed from "+got+" instead of the stored position [40:48] plus the stored on-disk length [48:52]")
+		}
+	})
+	if n == 0 {
+		bad = append(bad, "LoadBlockIndex never sets the append position from a record")
+	}
+	r.Check(len(bad) == 0, rule, "resume-position/loader", p.Pos(lb.Pos()), fmt.Sprintf("%d assignment(s) of the append position while loading, each = record[40:48] + record[48:52]", n), strings.Join(bad, "; "))
 }
